@@ -559,6 +559,28 @@ class ExpMat:
             col.dtype = self.dtype
             col.column_of = (self, d)
             return col
+        if isinstance(idx, tuple) and len(idx) == 2 and idx[0] == slice(None, None, None) and isinstance(idx[1], slice) \
+                and idx[1].step is None and (idx[1].start is None) != (idx[1].stop is None):
+            sl = idx[1]
+            ctx = ex.ctx
+            site = ex.site("column_slice")
+            if sl.stop is not None:
+                k = sl.stop                                   # exponents[:, :k]  (k >= 0): the first k columns
+                ex.oblige(f"pre({site}).bound_in_range", z3.And(0 <= k, k <= self.D), "precondition", node,
+                          note="negative or too large slice bounds are not modelled")
+                out = ExpMat(self.n, k, self._row, Region("fresh"), self.dtype)      # same rows, read at width k
+                out.column_prefix_of = (self, k)
+                return out
+            k = sl.start                                      # exponents[:, k:]: the columns from k on
+            ex.oblige(f"pre({site}).bound_in_range", z3.And(0 <= k, k <= self.D), "precondition", node)
+            rows = self._row
+            rf = ctx.func("rowtail", I, Mono)
+            t, d = z3.Int(ctx.fresh("t")), z3.Int(ctx.fresh("d"))
+            ctx.assume(z3.ForAll([t, d], expo(rf(t), d) == expo(rows(t), d + k), patterns=[expo(rf(t), d)]))
+            ctx.assume(z3.ForAll([t, d], z3.Implies(d >= k, expo(rows(t), d) == expo(rf(t), d - k)), patterns=[expo(rows(t), d)]))
+            out = ExpMat(self.n, self.D - k, lambda t: rf(t), Region("fresh"), self.dtype)
+            out.column_tail_of = (self, k)
+            return out
         if isinstance(idx, BoolVec):
             ex.oblige(f"pre({ex.site('row_mask')}).length", idx.n == self.n, "precondition", node)
             sel = V.selection_for(ex, self.n, idx.at)
@@ -1066,8 +1088,11 @@ class NamesV:
             ctx.assume(nlen(nm) == n)
             ctx.assume(ctx.forall_range(0, n, lambda d: nat(nm, d) == nat(self.term, n - 1 - d)))
             return NamesV(nm)
-        if isinstance(idx, slice) and idx.start is None and idx.step is None and isinstance(idx.stop, int) and idx.stop >= 0:
+        if isinstance(idx, slice) and idx.start is None and idx.step is None and (
+                (isinstance(idx.stop, int) and idx.stop >= 0) or isinstance(idx.stop, z3.ArithRef)):
             k = idx.stop
+            if isinstance(k, z3.ArithRef):
+                ex.oblige(f"pre({ex.site('slice')}).bound_not_negative", k >= 0, "precondition", node)
             ctx = ex.ctx
             nm = ctx.const("names_prefix", Names)
             ctx.assume(nlen(nm) == z3.If(nlen(self.term) < k, nlen(self.term), k))
@@ -1295,6 +1320,15 @@ def install(reg):
             return z3.Not(ex.ctx.forall_range(0, a.n, lambda t: z3.Not(a.at(t))))
         if isinstance(a, EntryTest) and len(args) == 1 and not kw:
             return a.some(ex.ctx)
+        if isinstance(a, ExpMat) and (args[1:] == [-1] or kw.get("axis") == -1) and len(args) + len(kw) == 2:
+            m = a
+            ctx = ex.ctx
+            anyf = ctx.func("row_has_nonzero", I, B)
+            ctx.assume(ctx.forall_range(0, m.n, lambda t: anyf(t) == z3.Not(ctx.forall_range(0, m.D, lambda d: expo(m.row(t), d) == 0)),
+                                        pat=lambda t: anyf(t)))
+            bv = BoolVec(m.n, lambda t: anyf(t))
+            bv.row_any_of = m
+            return bv
         if isinstance(a, Arr) and len(args) == 1 and not kw:
             i = z3.Const(ex.ctx.fresh("i"), Idx)
             nz = (a.elem(i) != 0) if a.kind != "bool" else a.elem(i)
